@@ -87,7 +87,8 @@ NStep(st, e, t) ==
            ELSE Check(st, e, [st EXCEPT !.scan = Scan(st.scan, e.id)])
       [] e.e = "send" ->
            IF e.raised THEN Bad(st, "send_message raised")
-           ELSE IF e.msg.id # e.id \/ e.msg.d # e.d \/ e.msg.rtr # e.remote
+           \* (a CAN remote frame has no data field: python-can leaves out whatever payload was handed over)
+           ELSE IF e.msg.id # e.id \/ e.msg.d # (IF e.remote THEN <<>> ELSE e.d) \/ e.msg.rtr # e.remote
              THEN Bad(st, "outgoing frame does not carry exactly the given id, data and remote flag")
            ELSE IF e.msg.ext # Extended(e.id)
              THEN Bad(st, "extended frame format not used exactly for ids above 0x7FF")
